@@ -26,6 +26,11 @@ for d in sorted(glob.glob(os.path.join(ROOT, "seeded", "C*-*"))):
     files = ", ".join(meta.get("files", []))[:80] if isinstance(meta.get("files"), list) else str(meta.get("files", ""))[:80]
     clause = str(meta.get("clause", ""))[:160].replace("|", "/").replace("\n", " ")
     needs = str(meta.get("needs", ""))[:260].replace("|", "/").replace("\n", " ")
+    mp = os.path.join(d, "moot.txt")
+    if os.path.exists(mp):
+        res_txt = "MOOT: " + open(mp).read().strip().replace("\n", " ")[:300]
+        rows.append((name, files, clause, needs, "confirmed" if ver else "UNCONFIRMED", res_txt, note))
+        continue
     rows.append((name, files, clause, needs, "confirmed" if ver else "UNCONFIRMED", ("caught by " + ", ".join(caught) + (" (" + ", ".join(kinds) + ")" if kinds else "")) if caught else ("MISSED" if res else "not run"), note))
 with open(os.path.join(ROOT, "docs", "SEEDED.md"), "w") as f:
     f.write("# Seeded breaking changes (written by independent sub-agents from the property text only)\n\n"
@@ -34,4 +39,4 @@ with open(os.path.join(ROOT, "docs", "SEEDED.md"), "w") as f:
             "| Seed | Files | Clause broken | Needs | Demo | Result on current checks | Strengthening it triggered |\n|---|---|---|---|---|---|---|\n")
     for r in rows:
         f.write("| " + " | ".join(r) + " |\n")
-print(len(rows), "seeds;", sum(1 for r in rows if r[5].startswith("caught")), "caught")
+print(len(rows), "seeds;", sum(1 for r in rows if r[5].startswith("caught")), "caught;", sum(1 for r in rows if r[5].startswith("MOOT")), "moot")
